@@ -1,6 +1,8 @@
 mod directory;
 mod file_number;
 
+#[cfg(mrecordlog_verif)]
+pub(crate) use self::directory::verif_filename_to_position;
 pub use self::directory::{Directory, RollingReader, RollingWriter};
 pub use self::file_number::{FileNumber, FileTracker};
 
